@@ -1256,12 +1256,12 @@ class Mesh:
             _, ixb = np.unique(tmp.view([('', tmp.dtype)] * tmp.shape[1]),
                                return_inverse=True)
             ixb = ixb.reshape(-1)
-            lookup = {tuple(np.sort(f)): i
+            lookup = {tuple(np.unique(f)): i
                       for i, f in enumerate(out.facets.T)}
             boundaries = {}
             for k, v in self._boundaries.items():
                 ix = np.array(
-                    [lookup[tuple(np.sort(ixb[self.facets[:, f]]))]
+                    [lookup[tuple(np.unique(ixb[self.facets[:, f]]))]
                      for f in np.asarray(v)],
                     dtype=np.int32,
                 )
